@@ -1,5 +1,6 @@
 import FiberModel.DriverUtil
 import FiberModel.C07.Known
+import FiberModel.C07.DriverCases
 /-
 Driver for C07. Case fields after the id: see harness/cmd/c07/main.go.
 -/
@@ -261,6 +262,7 @@ def handleWire (id req obs alloc : String) : Except String Verdict := do
          tags := ["wire", if obs.startsWith "ok" then "wire-answered" else "wire-" ++ (obs.take 7).toString] }
 
 def handleCase (f : List String) : Except String Verdict := do
+  if let some r := C07.Cases.handle f then return ← r
   match f with
   | [id, "emit", _, helper, args, ints, obs] => handleEmit id helper args ints obs
   | [id, "range", _, hdr, size, obs] => handleRange id hdr size obs
